@@ -266,6 +266,17 @@ func parseExpr(in []byte) (Q, int, error) {
 		if subQ == nil {
 			return nil, 0, fmt.Errorf("query: '-' operator needs an argument")
 		}
+		// case: and type: are directives for the enclosing expression list,
+		// not predicates: negating them would leave a *caseQ or a Type
+		// without child inside the query, which later stages panic on.
+		switch subQ.(type) {
+		case *caseQ:
+			return nil, 0, fmt.Errorf("query: cannot negate case:")
+		case *Type:
+			if subQ.(*Type).Child == nil {
+				return nil, 0, fmt.Errorf("query: cannot negate type:")
+			}
+		}
 		b = b[n:]
 		expr = &Not{subQ}
 
